@@ -394,6 +394,29 @@ func TestC01(t *testing.T) {
 	if ev.Thorough() {
 		col.Exhaustive(fmt.Sprintf("feature lattice: all %d feature pairs", len(fs)*(len(fs)-1)/2))
 	}
+	// (c) distinct configured identifiers whose *derived* method names coincide (Must<G>, <G>InContext, Must<G>InContext,
+	// the embedded container's API): the tool rejects them today (excluded, C11/C13 own that); should one ever be accepted,
+	// C01 still demands code that compiles
+	for _, g := range []string{"ang", "Val", "x1", "GetA"} {
+		for _, other := range []string{"Must" + g, g + "InContext", "Must" + g + "InContext", "Must" + strings.ToUpper(g[:1]) + g[1:], "Get", "GetParam", "Container"} {
+			for v := 0; v < 4; v++ {
+				idx++
+				if !ev.Mine(idx) {
+					continue
+				}
+				c := cfg.Config{Meta: cfg.Meta{Pkg: sp("app")}, Services: []cfg.Service{
+					{Name: "a", Ctor: sp("fx/lib.NewObj"), Getter: sp(g)},
+					{Name: "b", Ctor: sp("fx/lib.NewObj"), Getter: sp(other)},
+				}}
+				if v&1 != 0 {
+					c.Services[0].Must = bp(true)
+				} else {
+					c.Meta.DefaultMust = bp(true)
+				}
+				members = append(members, c01Member{Files: []cfg.Config{c}, Stub: v&2 != 0, Labels: []string{"derived-name-collision-candidate", "getter-pair:" + g + "+" + other, fmt.Sprintf("stub:%v", v&2 != 0)}})
+			}
+		}
+	}
 	for len(members) > 0 {
 		n := 32
 		if n > len(members) {
